@@ -142,6 +142,18 @@ impl ValidationContext {
         match expr {
             Expression::FunctionCall { name, args } => {
                 self.check_function_call_target(name)?;
+                // (a built-in handed too few arguments takes them from an empty stack at runtime)
+                if !self.function_names.contains(name)
+                    && !self.external_functions.contains(name)
+                    && let Some(arity) = builtin_function_arity(name)
+                    && args.len() != arity
+                {
+                    return Err(CompilerError::invalid_source(format!(
+                        "{name}() takes {arity} argument{}, {} given",
+                        if arity == 1 { "" } else { "s" },
+                        args.len()
+                    )));
+                }
                 for arg in args {
                     self.validate_expr_function_calls(arg)?;
                 }
